@@ -830,6 +830,10 @@ class Exec:
                         pres2 = z3.substitute(present, *sub_) if sub_ else present
                         for r_ in recs:
                             r_['cond'] = z3.substitute(r_['cond'], *sub_) if sub_ else r_['cond']
+                            r_['symbol_at_row'] = z3.substitute(r_['symbol'], *sub_) if sub_ else r_['symbol']
+                            r_['gvars_at_row'] = [z3.substitute(g, *sub_) for g in r_['gvars']] if sub_ else list(r_['gvars'])
+                            if r_.get('arg') is not None and sub_:
+                                r_['arg'] = SV(z3.substitute(r_['arg'].n, *sub_), z3.substitute(r_['arg'].v, *sub_))
                         aliases[item.alias] = DerivedRef(comp2, pres2)
                     else:
                         keyvars.extend(gvars)
@@ -1497,6 +1501,16 @@ class Exec:
             arg = None
             if not e.star and e.args:
                 arg = self.ev(e.args[0], actx['scope'])
+            same = [r0 for r0 in actx['records'] if r0['func'] == name and ((r0['arg'] is None and arg is None) or (r0['arg'] is not None and arg is not None and r0['arg'].v.eq(arg.v) and r0['arg'].n.eq(arg.n)))]
+            if same:
+                # the same aggregate over the same rows of the same query: one value (e.g. SUM(x) used twice in a select list)
+                sym = same[0]['symbol']
+                if name == 'COUNT':
+                    return SV(False, sym)
+                if actx['grouped']:
+                    return SV(False, sym)
+                empty = z3.Not(z3.Exists(actx['kvars'], actx['cond'])) if actx['kvars'] else z3.Not(actx['cond'])
+                return SV(empty, sym)
             if actx['grouped'] and actx.get('gvars'):
                 fdecl = z3.Function(fresh('agg_%s' % name.lower()), *[g.sort() for g in actx['gvars']], z3.IntSort())
                 sym = fdecl(*actx['gvars'])
